@@ -24,6 +24,9 @@ pub const CLASSES: &[&str] = &[
     "wrong-key",
     "bitflip",
     "extra-invalid",
+    "random-mix",
+    "unsigned-then-garbage",
+    "valid-short-then-garbage",
     "decl-dropped",
     "decl-added",
     "decl-duplicated",
@@ -294,6 +297,68 @@ pub fn craft(
             p.desc = format!("all-signed,slot{}-invalid", k);
             p
         }
+        "random-mix" => {
+            // every slot independently unsigned / valid / invalid (garbage, wrong key, wrong digest)
+            let pu = rng.below(4);
+            let pi = rng.below(4);
+            let mut p = plan_honest(&w.ring, &m.domain, &set, dh, &all_slots(&set));
+            for k in 0..n {
+                let r = rng.below(4 + pu + pi);
+                if r < 1 + pu {
+                    p.slots[k] = SlotSig::None;
+                } else if r < 1 + pu + 1 + pi {
+                    let bad: [u8; 64] = match rng.below(3) {
+                        0 => {
+                            let mut g = [0u8; 64];
+                            g.copy_from_slice(&rng.bytes(64));
+                            g
+                        }
+                        1 => {
+                            let pk = w.ring.gen(rng);
+                            w.ring.get(&pk).unwrap().sign(&right)
+                        }
+                        _ => w.ring.get(&set.signers[k].key).unwrap().sign(&rng.bytes32()),
+                    };
+                    p.slots[k] = SlotSig::Invalid(bad);
+                }
+            }
+            p.desc = format!(
+                "mix[{}]",
+                p.slots.iter().map(|s| match s { SlotSig::None => 'u', SlotSig::Valid(_) => 'v', SlotSig::Invalid(_) => 'x' }).collect::<String>()
+            );
+            p
+        }
+        "unsigned-then-garbage" | "valid-short-then-garbage" => {
+            // a leading run (unsigned, or validly signed but below the threshold) followed by
+            // slots carrying garbage: no valid weight reaches the threshold
+            if n < 2 {
+                return None;
+            }
+            let mut p = plan_honest(&w.ring, &m.domain, &set, dh, &[]);
+            let split = 1 + rng.usize(n - 1);
+            let mut valid_w = 0u128;
+            for k in 0..n {
+                if k < split {
+                    if class == "valid-short-then-garbage" {
+                        let wk = set.signers[k].weight;
+                        if valid_w.saturating_add(wk) < set.threshold && rng.chance(1, 2) {
+                            valid_w += wk;
+                            p.slots[k] = SlotSig::Valid(w.ring.get(&set.signers[k].key).unwrap().sign(&right));
+                        }
+                    }
+                } else {
+                    let mut g = [0u8; 64];
+                    g.copy_from_slice(&rng.bytes(64));
+                    p.slots[k] = SlotSig::Invalid(g);
+                }
+            }
+            p.desc = format!(
+                "{}[{}]",
+                class,
+                p.slots.iter().map(|s| match s { SlotSig::None => 'u', SlotSig::Valid(_) => 'v', SlotSig::Invalid(_) => 'x' }).collect::<String>()
+            );
+            p
+        }
         "decl-dropped" | "decl-added" | "decl-duplicated" | "decl-swapped" | "decl-weight"
         | "decl-threshold" | "decl-nonce" => {
             let mut d = set.clone();
@@ -397,7 +462,7 @@ fn own(reason: &str, prop: &str) -> bool {
 
 pub fn run(ctx: &Ctx, rep: &mut Report) {
     let total = ctx.universes(2400, 200000);
-    let per_universe = 26;
+    let per_universe = 30;
     let mut seen_classes = std::collections::BTreeSet::new();
     for uni in ctx.my_universes(total) {
         let mut rng = ctx.rng_for(uni);
@@ -620,7 +685,7 @@ pub fn run(ctx: &Ctx, rep: &mut Report) {
         }
     }
     rep.notes.insert("required".into(), json!(CLASSES));
-    rep.notes.insert("rule".into(), json!("per universe: gateway with retention in {0,1,2,5}, 1-3 initial sets, 0-6 honest rotations, optionally a second gateway with another domain separator and the same sets; 26 submissions (approve_messages or standalone validate_proof), every one of 23 classes at least once per universe (honest all/subset/exact-threshold/old-retained; one-short; signatures over another domain/command/batch/set; wrong key; bit flip; extra invalid signature; declared set with dropped/added/duplicated/swapped signer, changed weight/threshold/nonce, kept or re-signed; never installed; beyond retention; cross-gateway replay; empty batch); distinct = (class, entry point, expectation, outcome, signer count, retention, epoch gap)"));
+    rep.notes.insert("rule".into(), json!("per universe: gateway with retention in {0,1,2,5}, 1-3 initial sets, 0-6 honest rotations, optionally a second gateway with another domain separator and the same sets; 30 submissions (approve_messages or standalone validate_proof), every one of 26 classes at least once per universe (honest all/subset/exact-threshold/old-retained; one-short; signatures over another domain/command/batch/set; wrong key; bit flip; extra invalid signature; every slot independently unsigned/valid/invalid; unsigned or insufficient valid prefix followed by garbage signatures; declared set with dropped/added/duplicated/swapped signer, changed weight/threshold/nonce, kept or re-signed; never installed; beyond retention; cross-gateway replay; empty batch); distinct = (class, entry point, expectation, outcome, signer count, retention, epoch gap)"));
     rep.notes.insert(
         "classes_seen".into(),
         json!(seen_classes.iter().collect::<Vec<_>>()),
